@@ -198,6 +198,9 @@ func genEvict(rng *vh.Rng, n int, emit func(id string, sel int, in []int64, kind
 		} else {
 			spec = evict.GenSpec(r)
 			spec.Actions = vh.Pick(r, [][]int64{{1}, {2}, {1, 2}, {2, 1}, {3, 1}, {3, 2}, {3, 1, 2}, {1, 3}, {2, 3, 1}, {4, 1, 2}})
+			// a refused eviction at Commit un-evicts the victim under the pipelined preemptor: the
+			// documented limit of the theorem (commit_refused_eviction_refuted); refusals are C07's
+			spec.Refuse = nil
 		}
 		pend, victims := 0, 0
 		for _, t := range spec.Tasks {
